@@ -54,6 +54,11 @@ def cases(tier, seed):
         for rows in ([], [["affine", "eq0"]], [["sphere", "upper"]]):
             for dt in (2.0, 1.0, 0.5, 0.125):
                 out.append({"inertia": True, "hi": hi, "rows": rows, "rho": 1.0, "dt": dt})
+    # problems posed in very small / very large units (x and boxes ~ u, Hessian ~ 1/u, step size ~ u): displacements of 1e-9 are not "zero"
+    for u in (1e-9, 1e-6, 1e6):
+        for rows in (0, 1):
+            for dtf in (0.25, 1.0, 8.0):
+                out.append({"units": u, "nrows": rows, "rho": 1.0, "dtf": dtf})
     for pattern in ("boxed", "mixed"):
         for k in ((0, 2) if tier == "quick" else range(5)):
             for rho in RHOS:
@@ -229,11 +234,81 @@ def inertia_case(case):
     return {"outcome": "agree" if not viol else "violating", "key": keys, "violations": vs, "stats": stats}
 
 
+def units_case(case):
+    from pygradflow.iterate import Iterate
+    from pygradflow.step.solver import step_solver
+    from pygradflow.step.step_solver_error import StepSolverError
+    from pygradflow.transform import Transformation
+    from pgfmc.drive import grid as G
+    from pgfmc.drive.problems import UserProblem
+    from pgfmc.drive.run import make_params
+
+    u = case["units"]
+    H = (np.array([[2.0, 0.5, 0.0], [0.5, 1.0, -0.25], [0.0, -0.25, 1.5]]) / u).tolist()
+    rows = [{"a": [1.0, 1.0, 0.0], "b": 0.0, "lb": -0.5 * u, "ub": 0.75 * u}] if case["nrows"] else []
+    spec = G.raw(3, {"H": H, "g": [1.0, -2.0, 0.5]}, rows, [-1.0 * u, -2.0 * u, "-inf"], [2.0 * u, 1.5 * u, 3.0 * u], [0.5 * u, -0.3 * u, 0.1 * u], f"units|{u:g}|{case['nrows']}")
+    rho, dt = case["rho"], case["dtf"] * u
+    prob = UserProblem(spec)
+    F = O.Funcs(spec)
+    T = O.RefTrans(F)
+    m = T.m
+    viol, keys = [], []
+    stats = {"solves": 0, "compared": 0, "illcond": 0}
+    bases = [np.clip(np.array([0.5, -0.3, 0.1, 0.2][: T.n]) * u, T.var_lb, T.var_ub),
+             # points within 1e-9 .. 1e-8 (absolute) of a bound: the clipped displacement of an active variable is tiny but not zero
+             np.clip(np.array([2.0 * u - min(3e-9, 0.5 * u), -2.0 * u + min(7e-9, 0.5 * u), 0.1 * u, 0.2 * u][: T.n]), T.var_lb, T.var_ub)]
+    for ss in ("Standard", "Extended", "Symmetric", "Asymmetric"):
+        params = make_params({"step_solver": ss})
+        tr = Transformation(prob, params)
+        P, ev = tr.trans_problem, tr.evaluator
+        for xb in bases:
+            for y in (np.array([1.5][:m]), np.zeros(m)):
+                R0 = O.RefPoint(T, xb, y)
+                for bits in itertools.product([False, True], repeat=T.n):
+                    A = np.array(bits, dtype=bool)
+                    Jm = O.implicit_jac(T, R0, rho, dt, A)
+                    cond = np.linalg.cond(Jm)
+                    if not np.isfinite(cond) or cond > 1e8:
+                        stats["illcond"] += 1
+                        continue
+                    s_ = np.linalg.solve(Jm, O.implicit_value(T, (xb, y), R0, rho, dt, A))
+                    xn = np.clip(xb - s_[: T.n], T.var_lb, T.var_ub)
+                    yn = y - s_[T.n:]
+                    it0 = Iterate(P, params, xb, y, ev)
+                    stats["solves"] += 1
+                    at = {"units": u, "base": xb.tolist(), "y0": y.tolist(), "active": [int(b) for b in bits], "rho": rho, "dt": dt}
+                    try:
+                        with np.errstate(all="ignore"):
+                            sv = step_solver(P, params, it0, dt, rho)
+                            sv.update_active_set(A)
+                            sv.update_derivs(it0)
+                            res = sv.solve(it0)
+                    except StepSolverError:
+                        viol.append({"sig": f"C14|units|lu_failed|{ss}", "msg": f"direct solver failed (cond {cond:.1e}) at {at}", "detail": at})
+                        continue
+                    if A.any():
+                        keys.append(f"{spec['tag']}|{ss}|{at['active']}|{dt}|{xb.tolist()}|{y.tolist()}")
+                    # x-components in units of u, y-components in units of 1
+                    ex = float(np.max(np.abs(res.iterate.x - xn))) / max(u, float(np.max(np.abs(s_[: T.n]))))
+                    ey = float(np.max(np.abs(res.iterate.y - yn), initial=0.0)) / max(1.0, float(np.max(np.abs(s_[T.n:]), initial=0.0)))
+                    stats["compared"] += 1
+                    if not np.isfinite(ex + ey) or max(ex, ey) > 1e-9 * cond:
+                        viol.append({"sig": f"C14|units|step|{ss}", "msg": f"step differs from the dense Newton step by relative {max(ex, ey):.3e} (cond {cond:.1e}) at {at}: "
+                                     f"got x={res.iterate.x.tolist()} want {xn.tolist()}", "detail": at})
+    seen, vs = set(), []
+    for v in viol:
+        if v["sig"] not in seen:
+            seen.add(v["sig"]); vs.append(v)
+    return {"outcome": "agree" if not viol else "violating", "key": keys, "violations": vs, "stats": stats}
+
+
 def run_case(case):
     if case.get("large"):
         return large_case(case)
     if case.get("inertia"):
         return inertia_case(case)
+    if case.get("units"):
+        return units_case(case)
     from pygradflow.iterate import Iterate
     from pygradflow.newton import newton_method
     from pygradflow.step.solver import step_solver
